@@ -25,6 +25,9 @@ ELEMS = {
     "swap": (CALL("sw"), "(DROP, (Push<Str<Sb>>, Str<Sc>))"),
     # an optional inside the element pops an entry pushed before the cell; the element then fails: Option / repetition restore by value
     "dropc": (CALL("dc"), "(Option<DROP>, Str<Sc>)"),
+    # stack slices with negative bounds as elements: -k with exactly k entries on the stack is the bottom of the stack
+    "pk1": ({"t": "peekslice", "a": -1, "hasb": False, "b": 0}, "PeekSlice1<-1>"),
+    "pk2": ({"t": "peekslice", "a": -2, "hasb": True, "b": -1}, "PeekSlice2<-2, -1>"),
     # an element that can match empty without touching the stack: a bounded repetition still records every iteration up to MAX
     # (unbounded ones never return: no cell)
     "opta": (OPT(S("a")), "Option<Str<Sa>>"),
@@ -39,9 +42,9 @@ def cells(tier):
             for mn in rng:
                 for mx in rng:
                     out.append(dict(kind="minmax", ek=ek, skip=skip, mn=mn, mx=mx))
-                if ek != "opta":
+                if ek not in ("opta", "pk1", "pk2"):
                     out.append(dict(kind="min", ek=ek, skip=skip, mn=mn, mx=-1))
-    for ek in ("str", "alt", "pop", "pushb", "dropc"):
+    for ek in ("str", "alt", "pop", "pushb", "dropc", "pk1"):
         for n in range(0, 4):
             out.append(dict(kind="array", ek=ek, skip=0, mn=n, mx=n))
         out.append(dict(kind="atomicrepeat", ek=ek, skip=0, mn=0, mx=-1))
@@ -53,7 +56,7 @@ def cells(tier):
         keep = []
         for i, c in enumerate(out):
             small = c["mn"] <= 2 and c["mx"] <= 2
-            if c["kind"] != "minmax" or c["ek"] in ("str", "pop") or (c["ek"] in ("pushb", "swap", "opta", "dropc") and small) or (c["mn"] + 2 * c["mx"] + c["skip"]) % 3 == 0:
+            if c["kind"] != "minmax" or c["ek"] in ("str", "pop") or (c["ek"] in ("pushb", "swap", "opta", "dropc", "pk1", "pk2") and small) or (c["mn"] + 2 * c["mx"] + c["skip"]) % 3 == 0:
                 keep.append(c)
         out = keep
     for i, c in enumerate(out):
@@ -93,7 +96,7 @@ def build(tier):
     for c in cs:
         cell, ty, cnt = model_and_type(c)
         sk = c["skip"]
-        stacky = c["ek"] in ("pop", "drop", "swap", "dropc")
+        stacky = c["ek"] in ("pop", "drop", "swap", "dropc", "pk1", "pk2")
         if stacky:
             # PUSH("a"){,3} ~ ";" ~ cell   with the same SKIP everywhere, exactly the generated shape
             body = SEQ(REP(PUSH(S("a")), 0, 3), S(";"), cell)
